@@ -106,7 +106,7 @@ class Model:
             return 'forever', None
         return 'timed', timeout
 
-    def try_acquire(self, t, o, blocking=True, timeout=None):
+    def try_acquire(self, t, o, blocking=True, timeout=None, poll_interval=POLL):
         """-> (result, max_elapsed, min_elapsed) ; result True/False/'hang'."""
         mode, tm = self.norm(blocking, timeout)
         if self.holder[o] is not None and self.reentrant and self.holder[o] == t:
@@ -125,7 +125,7 @@ class Model:
                 return False, 0.0, 0.0
             if mode == 'forever':
                 return 'hang', None, None
-            return False, tm + POLL, 0.0
+            return False, tm + poll_interval, 0.0
         self.holder[o] = t
         self.depth[o] = 1
         self.path_holder = o
@@ -152,6 +152,8 @@ ACQ_VARIANTS = {
     'acq_nb_ts':  {'blocking': False, 'timeout': SMALL},     # timeout overrides blocking=False
     'acq_neg':    {'blocking': True, 'timeout': -1},
     'acq_nb_neg': {'blocking': False, 'timeout': -1},
+    'acq_ts_fastpoll': {'blocking': True, 'timeout': SMALL, 'poll_interval': 0.01},
+    'acq_t0_slowpoll': {'blocking': True, 'timeout': 0, 'poll_interval': 0.5},
 }
 SMALL_ALPHABET = ['acq_nb', 'acq_ts', 'rel', 'rel_force']       # per thread, one object
 FULL_ALPHABET = list(ACQ_VARIANTS) + ['ctx', 'ctx_nb', 'ctx_ts', 'with', 'rel', 'rel_force']
@@ -283,7 +285,7 @@ class SeqWorld:
         lock = self.locks[o]
         if name in ACQ_VARIANTS:
             kw = ACQ_VARIANTS[name]
-            return ('ret', lock.acquire(kw['blocking'], kw['timeout']))
+            return ('ret', lock.acquire(**kw))
         if name in ('ctx', 'ctx_nb', 'ctx_ts'):
             kw = {'ctx': (True, None), 'ctx_nb': (False, None), 'ctx_ts': (True, SMALL)}[name]
             try:
